@@ -85,7 +85,55 @@ def _c20(tier, seed):
                  validate_runs=["H_C20_paths(1,2,1,2)", "H_C20_paths(0,2,2,2)", "H_C20_joinchat(1,2)", "H_C20_hosts(0,8,2,0)", "H_C20_schemeless(5,1)"],
                  covers={"H_C20_joinchat": ["invite"]})]
 
+TL_HARNESS = ["harness/telegram/gen.go", "harness/telegram/num.go", "harness/telegram/c01.go"]
+TL_OVERLAY = {"/repo/internal/encoding/tl/zz_verif_export.go": "harness/tl/export.go"}
+N_STRUCTS = 1168  # upper bound used to size sweeps; indices past the registry are trivial runs
+N_ENUMS = 64
+
+
+def _sample(seed, n, k):
+    import random
+    r = random.Random(seed)
+    return sorted(r.sample(range(n), min(k, n)))
+
+
+def _c01(tier, seed):
+    q = tier == "quick"
+    runs = ["H_C01_enum(%d)" % k for k in range(N_ENUMS)]
+    if q:
+        for k in range(24):      # constructors with a shared flag bit: every single-member pattern
+            for pat in range(0, 12):
+                runs.append("H_C01_class(1,%d,%d,1,0)" % (k, pat))
+        for k in range(34):      # MTProto service objects
+            for pat in (0, 1):
+                runs.append("H_C01_class(2,%d,%d,1,0)" % (k, pat))
+        for idx in _sample(seed, N_STRUCTS, 100):
+            for pat in (0, 1, 2, 3):
+                runs.append("H_C01_rt(%d,%d,1,0)" % (idx, pat))
+        kern = ["H_string(0,9,1)", "H_string(250,258,1)", "H_popmessage_arbitrary(10)", "H_string(65534,65537,0)", "H_string_too_large(0)", "H_string_too_large(1)"]
+    else:
+        for idx in range(N_STRUCTS):
+            for pat in range(0, 64):
+                runs.append("H_C01_rt(%d,%d,1,0)" % (idx, pat))
+            for variant in (1, 2):
+                runs.append("H_C01_rt(%d,1,2,%d)" % (idx, variant))
+                runs.append("H_C01_rt(%d,0,2,%d)" % (idx, variant))
+        kern = ["H_string(%d,%d,1)" % (a, a + 7) for a in range(0, 272, 8)] + ["H_popmessage_arbitrary(16)", "H_string(65534,65537,0)", "H_string(16777212,16777215,0)", "H_string_too_large(0)", "H_string_too_large(1)", "H_string_too_large(5)"]
+    return [
+        dict(name="codec", pkg="telegram", harness=TL_HARNESS, overlay=TL_OVERLAY, native_overlay=TL_OVERLAY, runs=runs, solver="z3", walllimit=120, timeout=3000,
+             validate_runs=["H_C01_class(1,0,3,1,0)", "H_C01_class(2,1,0,1,0)", "H_C01_class(2,20,0,1,0)", "H_C01_rt(%d,1,1,0)" % (seed % 1000), "H_C01_enum(3)"]),
+        dict(name="strings", pkg="internal/encoding/tl", harness=["harness/tl/kernel.go"], runs=kern, solver="z3", procs=len(kern), timeout=1500,
+             validate_runs=["H_string(250,258,1)", "H_popmessage_arbitrary(10)"], covers={"H_popmessage_arbitrary": ["accepted"]}),
+    ]
+
 PROPS = {
+    "C01": dict(
+        jobs=_c01,
+        bounds={"quick": "all enum members; every constructor with a shared flag bit x presence patterns {none, all, only-j, all-but-j}; all MTProto service objects; 100 seed-chosen constructors x patterns {none, all, only first, only second}; leaves symbolic (int/long/double bits, bool, strings and byte strings of length 0..4, vectors of 0..2, int128/int256 with 0..2 leading zero bytes), nested objects depth 1 with the smallest implementer; strings: every length 0..9, 250..258, 65534..65537 (PutMessage/PopMessage kernels), 2^24 and 2^24+1",
+                "thorough": "all registered constructors x all single-member patterns, depth 2 with 3 implementer variants; every string length 0..279, 2^24-4..2^24+5"},
+        outside="strings longer than 4 inside a full constructor (covered through the string kernels), nesting deeper than 2, vectors longer than 2, presence patterns that differ from none/all in more than one field, msg_container / gzip_packed (hand-written codecs: C15/C09), exact-consumption of trailing bytes",
+        assumptions=["reflect is modelled by the engine (validated against native reflect on the differential vectors)", "math/big.Int modelled as bit-vectors; Bytes() explored for 0..2 leading zero bytes"],
+    ),
     "C20": dict(
         jobs=_c20,
         bounds={"quick": "schemes {none, http, https}; the 5 reserved hosts and every host text of length 0..8 over [A-Za-z0-9.-] (look-alikes), ports {none, ':', ':443', ':8080'}; paths of 0..3 segments, each 0..2 bytes over [A-Za-z0-9._~-]; /joinchat/<token> with token 0..2 and arbitrary 8-byte first segments; scheme-less texts incl. the bare host",
